@@ -9,7 +9,7 @@ MANIFEST = {
     "C06": {
         "technique": "Lean 4 proof + tie by translation (the bodies of ~String, detach(copyLength, minCapacity), the copy constructor, operator=, the C string views, operator char*, detach(), resize, reserve, the three append and two prepend overloads, clear, capacity, isEmpty and String::printf are translated from the current String.hpp by tools/gen_str.py and proved equal to the model steps: PropsBody.lean) (copy-on-write heap model of String: reference-count invariant, refinement of every mutating call to independent byte-list values, terminator/foreign-memory invariants, libc search functions against declarative references) + differential correspondence model vs real String.hpp/String.cpp under ASan/UBSan with an independent Python bytes oracle",
         "text": "Theorems over all operation histories of the Lean model of String (lazy-copy heap with reference counts, literal/attached foreign memory, detach with capacity rule); the model is tied to the current String.hpp/String.cpp on every run by executing identical op lines on both (exhaustive small scope incl. self arguments, every small byte string as argument of every query, random histories of up to 60 ops over 4 variables) and by an independent Python `bytes` reference; in addition the C++ bodies of the lazy-copy mechanism (destructor, detach, copy constructor, assignment, C string views, resize/reserve, append) are translated statement by statement on every run and machine-checked to be the model steps the theorems speak about, so a change of one of these bodies breaks a proof instead of having to be found by testing.",
-        "note": "Proved in Lean (Props.lean, all for every number of variables, every foreign-memory content and every history): reference counts exact (refcount_exact), refinement of all 39 mutating calls (extension round: + operator+= (String/char), operator+ (String/literal), fromCString x2, fromBool, fromInt/UInt/Int64/UInt64, fromPrintf) to independent byte lists (refines, run_total) on the domain of the specification (calls that branch on chars get specified chars, C-string based calls NUL-free values), independence of copies incl. self arguments (independent), literal/attached memory and guard byte never written (foreign_untouched), owned text always NUL-terminated and the C string view terminated (owned_terminated, cstr_terminated), absence of faults and termination of every mutating call under exactly stated preconditions (no_fault, run_total) and of the comparisons/searches/split (no_fault_queries), (no_fault_queries, no_fault_queries_from), query results against declarative references (find/findLast/findOneOf/findLastOf/compare/compare(n)/compareIgnoreCase/equalsIgnoreCase/trim/split/find(char)/==/startsWith/endsWith/start-index searches/toBool). plus compareIgnoreCase(n), hash, the generated case maps (case_maps), the extended operations with the shared token list and String(ptr,len) operands (xrefines) and own-pointer arguments (prepend_alias_safe, append_alias_reserved, alias_append_faults). token(sep, start) with its new start and the iteration = split law (token_spec, token_iteration_spec), substr clamping stated independently (substr_spec); all theorems assume only the invariant Good, which is closed under every call incl. queries and extended operations (good_closed). Extension round: printf/fromPrintf model both vsnprintf attempts (the truncated first store stays in the block while len is 0; eff_detach_dirty restores the invariant); queries_more_spec (< <= > >=, !=, equalsIgnoreCase(n), isEmpty, split(HashSet)), capacity_spec (capacity() is 0 or >= length(); after reserve(n) >= n), static_helpers_spec (static compare/compareIgnoreCase/length/find... on C strings), attach_alias_spec and alias_attach_printf_cases (attach/printf with a pointer into the String's own storage: sub-range of foreign memory is fine, own exclusively owned block is a fault). Round 2: static_compareN_spec, static_startsWith_literal_spec (static startsWith, ==/!= with a literal), char_classes_spec (isSpace and the <cctype> wrappers for all 256 chars; the C-locale definitions are an assumption), printf_alias_spec, attach_alias_cases, dedupToks_spec, printf_any_output (any directive relative to the libc output). Round 7, tie by translation (PropsBody.lean + PropsBody2.lean, 23 theorems; PropsBody over every state with Sane s = unused next block id, positive counts of live blocks, no dangling data pointer; sane_of_inv: implied by the heap invariant every reachable state has): tools/gen_str.py parses the bodies of ~String(), detach(usize, usize), String(const String&), operator=, operator const char*() (both), operator char*(), detach(), resize, reserve, append x3, prepend x2 in the current String.hpp (small C++ subset; everything else is refused = broken tie) and regenerates Nstd/Generated/StrBody.lean over the hand-written load/store semantics Mach.lean; proved equal to the model steps: dtor_translated (= release), detach_translated (model detach = [convention step expose when growing in place: exposed chars become unspecified, not C++] + translated body), detach_translated_eq (equal outright when copyLength <= length() or reallocating), cview_translated (both bodies), mview_translated (operator char* and detach()), reserve_translated, resize_translated, ctorCopy_translated (slot holds no object), assign_translated (incl. self assignment), appendS_translated (incl. the self argument), appendP_translated (any pointer: read after the detach), appendC_translated, appendAlias_translated. PropsBody2.lean (every state with the heap invariant Inv, an unused temporary slot): prependS_translated (incl. the self argument), prependP_translated (any pointer), printf_translated (String::printf of String.cpp: the retry logic around vsnprintf — sizes passed, success test result >= 0 && (usize)result < capacity, length query, detach(0, result), second attempt, data->len stores, return value — equals the model's printfOut; vsnprintf itself is the stated definition Mach.vsnprintf). clear_translated, capacity_isEmpty_translated (clear(), capacity(), isEmpty()). findC_translated (find(char): the first translated loop — for-loops become fuel-recursive definitions; on states with a specified value and fuel > length() the translated loop returns the pointer to the first match and the model its index). The translator inlines helper member functions (releaseData/createData/terminatedText of the harmless change C06-h6 leave every proof intact). equalS_translated (operator== / != = equalS / notEqualS), startsWith_translated (startsWith / endsWith), both on every state (Memory::compare = Mach.memCompare); ctorCap_translated (explicit String(usize)); fromPrintf_translated (String::fromPrintf of String.cpp = ctorCap + printfTail on the temporary slot: both sites of the vsnprintf retry logic are now translated). Hand-translated only (tied by the correspondence run): the case-map loops, trim, split/replace/join, findLast(char), substr (recorded harmless changes rewrite them outside the subset), compare x4, the string searches, token, attach, the non-copying constructors, operator+=/+, length() and the inline comparison operators, fromPrintf and every other function of String.cpp (the translator has no loop construct). Not in the Lean model on purpose: scanf and fromDouble (driven relative to the libc formatter only); printf directives beyond %d %u %lld %llu %s %c only relative to the libc output. Precondition stated in the theorems: (ptr,len)/const char* arguments do not point into the storage of the String being modified (String.hpp promises nothing; append with such a pointer is a use-after-free when it reallocates). Case maps, capacity masks, printf/fromPrintf buffers, replace slack, default arguments of trim/substr/split, isSpace bounds, fromBool literals and the hash multiplier are regenerated from the sources by tools/gen_str.py. Trusted: Lean kernel + the three standard axioms; the translator tools/gen_str.py and the statement semantics Mach.lean (usize = Nat without wrap-around, sizeof(char) = 1, C++17 evaluation order of E1[E2] = E3, Atomic::decrement followed by a load of the counter: one thread, header fields of a fresh block read as 0, return values not translated) for the translated bodies; for every other function the hand translation of String.hpp/String.cpp into the model, validated by the correspondence run, not proved; libc (strstr, strpbrk, strchr, memcmp, vsnprintf for %d %u %lld %llu %s %c) as Lean definitions of C-standard behaviour on NUL-terminated inputs; checked-memory abstraction (blocks are separate; uninitialised chars may be copied but not branched on; chars exposed by in-place growth are treated as unspecified); pointer arguments (ptr,len / const char*) do not alias the string's own storage; allocation never fails; one thread (reference counts are plain numbers).",
+        "note": "Proved in Lean (Props.lean, all for every number of variables, every foreign-memory content and every history): reference counts exact (refcount_exact), refinement of all 39 mutating calls (extension round: + operator+= (String/char), operator+ (String/literal), fromCString x2, fromBool, fromInt/UInt/Int64/UInt64, fromPrintf) to independent byte lists (refines, run_total) on the domain of the specification (calls that branch on chars get specified chars, C-string based calls NUL-free values), independence of copies incl. self arguments (independent), literal/attached memory and guard byte never written (foreign_untouched), owned text always NUL-terminated and the C string view terminated (owned_terminated, cstr_terminated), absence of faults and termination of every mutating call under exactly stated preconditions (no_fault, run_total) and of the comparisons/searches/split (no_fault_queries), (no_fault_queries, no_fault_queries_from), query results against declarative references (find/findLast/findOneOf/findLastOf/compare/compare(n)/compareIgnoreCase/equalsIgnoreCase/trim/split/find(char)/==/startsWith/endsWith/start-index searches/toBool). plus compareIgnoreCase(n), hash, the generated case maps (case_maps), the extended operations with the shared token list and String(ptr,len) operands (xrefines) and own-pointer arguments (prepend_alias_safe, append_alias_reserved, alias_append_faults). token(sep, start) with its new start and the iteration = split law (token_spec, token_iteration_spec), substr clamping stated independently (substr_spec); all theorems assume only the invariant Good, which is closed under every call incl. queries and extended operations (good_closed). Extension round: printf/fromPrintf model both vsnprintf attempts (the truncated first store stays in the block while len is 0; eff_detach_dirty restores the invariant); queries_more_spec (< <= > >=, !=, equalsIgnoreCase(n), isEmpty, split(HashSet)), capacity_spec (capacity() is 0 or >= length(); after reserve(n) >= n), static_helpers_spec (static compare/compareIgnoreCase/length/find... on C strings), attach_alias_spec and alias_attach_printf_cases (attach/printf with a pointer into the String's own storage: sub-range of foreign memory is fine, own exclusively owned block is a fault). Round 2: static_compareN_spec, static_startsWith_literal_spec (static startsWith, ==/!= with a literal), char_classes_spec (isSpace and the <cctype> wrappers for all 256 chars; the C-locale definitions are an assumption), printf_alias_spec, attach_alias_cases, dedupToks_spec, printf_any_output (any directive relative to the libc output). Round 7, tie by translation (PropsBody.lean + PropsBody2.lean, 25 theorems; PropsBody over every state with Sane s = unused next block id, positive counts of live blocks, no dangling data pointer; sane_of_inv: implied by the heap invariant every reachable state has): tools/gen_str.py parses the bodies of ~String(), detach(usize, usize), String(const String&), operator=, operator const char*() (both), operator char*(), detach(), resize, reserve, append x3, prepend x2 in the current String.hpp (small C++ subset; everything else is refused = broken tie) and regenerates Nstd/Generated/StrBody.lean over the hand-written load/store semantics Mach.lean; proved equal to the model steps: dtor_translated (= release), detach_translated (model detach = [convention step expose when growing in place: exposed chars become unspecified, not C++] + translated body), detach_translated_eq (equal outright when copyLength <= length() or reallocating), cview_translated (both bodies), mview_translated (operator char* and detach()), reserve_translated, resize_translated, ctorCopy_translated (slot holds no object), assign_translated (incl. self assignment), appendS_translated (incl. the self argument), appendP_translated (any pointer: read after the detach), appendC_translated, appendAlias_translated. PropsBody2.lean (every state with the heap invariant Inv, an unused temporary slot): prependS_translated (incl. the self argument), prependP_translated (any pointer), printf_translated (String::printf of String.cpp: the retry logic around vsnprintf — sizes passed, success test result >= 0 && (usize)result < capacity, length query, detach(0, result), second attempt, data->len stores, return value — equals the model's printfOut; vsnprintf itself is the stated definition Mach.vsnprintf). clear_translated, capacity_isEmpty_translated (clear(), capacity(), isEmpty()). findC_translated (find(char): the first translated loop — for-loops become fuel-recursive definitions; on states with a specified value and fuel > length() the translated loop returns the pointer to the first match and the model its index). The translator inlines helper member functions (releaseData/createData/terminatedText of the harmless change C06-h6 leave every proof intact). equalS_translated (operator== / != = equalS / notEqualS), startsWith_translated (startsWith / endsWith), both on every state (Memory::compare = Mach.memCompare); ctorCap_translated (explicit String(usize)); fromPrintf_translated (String::fromPrintf of String.cpp = ctorCap + printfTail on the temporary slot: both sites of the vsnprintf retry logic are now translated). ctorEmpty_translated (String()), ctorPtr_translated (String(const char*, usize); initialiser lists data(EXPR) are translated as a leading statement). Hand-translated only (tied by the correspondence run): the case-map loops, trim, split/replace/join, findLast(char), substr (recorded harmless changes rewrite them outside the subset), compare x4, the string searches, token, attach, the literal constructor, String(usize, char), operator+=/+, length() and the inline comparison operators, fromPrintf and every other function of String.cpp (the translator has no loop construct). Not in the Lean model on purpose: scanf and fromDouble (driven relative to the libc formatter only); printf directives beyond %d %u %lld %llu %s %c only relative to the libc output. Precondition stated in the theorems: (ptr,len)/const char* arguments do not point into the storage of the String being modified (String.hpp promises nothing; append with such a pointer is a use-after-free when it reallocates). Case maps, capacity masks, printf/fromPrintf buffers, replace slack, default arguments of trim/substr/split, isSpace bounds, fromBool literals and the hash multiplier are regenerated from the sources by tools/gen_str.py. Trusted: Lean kernel + the three standard axioms; the translator tools/gen_str.py and the statement semantics Mach.lean (usize = Nat without wrap-around, sizeof(char) = 1, C++17 evaluation order of E1[E2] = E3, Atomic::decrement followed by a load of the counter: one thread, header fields of a fresh block read as 0, return values not translated) for the translated bodies; for every other function the hand translation of String.hpp/String.cpp into the model, validated by the correspondence run, not proved; libc (strstr, strpbrk, strchr, memcmp, vsnprintf for %d %u %lld %llu %s %c) as Lean definitions of C-standard behaviour on NUL-terminated inputs; checked-memory abstraction (blocks are separate; uninitialised chars may be copied but not branched on; chars exposed by in-place growth are treated as unspecified); pointer arguments (ptr,len / const char*) do not alias the string's own storage; allocation never fails; one thread (reference counts are plain numbers).",
         "design_ref": "DESIGN.md 3/C06",
     }
 }
